@@ -169,7 +169,7 @@ class C05:
                     mk = b"mk%d" % rep.evaluations
                     r = c.cmd("ECHO", mk, timeout=3.0)
                     tail = "usable" if r == ("b", mk) else "misaligned:" + show_reply(r)
-                except Closed:
+                except (Closed, OSError):
                     tail = "closed-early"
                 except TimeoutError:
                     tail = "wedged"
@@ -332,6 +332,91 @@ class C05:
                 self.run_pipeline(cmds, [data[:cut], data[cut:]], "inline-ping")
             self.run_pipeline(cmds, [data[i:i + 1] for i in range(len(data))], "inline-ping")
 
+    def blocking_and_scripted(self, r):
+        """Requests whose reply is produced later or by a script are requests too: exactly one reply each, in order.
+        (a) a blocking pop on 1-3 keys that TIMES OUT is answered with ONE nil, and the commands behind it are answered
+        after it, in order; (b) commands pipelined behind a pop that really blocks, and commands sent WHILE the client
+        is blocked, are answered after the pop's reply in the order they were sent (served by a push, or timed out);
+        (c) replies whose text comes from the client through a script ({ok=…}, {err=…}, error(…)) with CR/LF inside
+        are still ONE frame.  Judged by count, order (unique ECHO markers) and framing only."""
+        self.fresh()
+
+        def expect(tag, c, want, what, cmds):
+            self.rep.evaluations += 1
+            got, why = [], None
+            try:
+                for _ in want:
+                    got.append(c.read_reply(timeout=3.0))
+                try:
+                    extra = c.read_reply(timeout=0.25)
+                    why = "an extra reply %s after the %d expected ones" % (show_reply(extra)[:60], len(want))
+                except TimeoutError:
+                    pass
+            except (Closed, OSError):
+                why = "connection closed after %d of %d replies" % (len(got), len(want))
+            except TimeoutError:
+                why = "only %d of %d replies arrived" % (len(got), len(want))
+            except ProtocolError as e:
+                why = "malformed reply stream: %s" % str(e)[:80]
+            if why is None:
+                for i, (g, w) in enumerate(zip(got, want)):
+                    if w is not None and g != w:
+                        why = "reply %d is %s, expected %s" % (i + 1, show_reply(g)[:80], show_reply(w)[:80])
+                        break
+            self.rep.nontrivial((tag, len(want), why is None))
+            self.rep.count("blocking." + tag)
+            if why:
+                self.oracle_failures.append({"commands": cmds, "segments": [], "tag": tag, "impl": [show_reply(g)[:80] for g in got], "why": "%s: %s" % (what, why)})
+            return why is None
+
+        NIL = ("na",)
+        # (a) timeouts, 1-3 keys, BLPOP and BRPOP, markers behind in the same write
+        for name in (b"BLPOP", b"BRPOP"):
+            for nkeys in (1, 2, 3):
+                keys = [b"bq%d" % i for i in range(nkeys)]
+                c = self.srv.client(timeout=4.0)
+                mk1, mk2 = b"m%d-a" % self.rep.evaluations, b"m%d-b" % self.rep.evaluations
+                cmds = [[name] + keys + [b"0.15"], [b"ECHO", mk1], [b"ECHO", mk2]]
+                c.send_raw(b"".join(enc(x) for x in cmds))
+                ok = expect("bpop-timeout-%dkeys" % nkeys, c, [NIL, ("b", mk1), ("b", mk2)],
+                            "%s on %d keys that times out, two ECHOs behind it in the same write" % (name.decode(), nkeys), [[a.decode() for a in x] for x in cmds])
+                c.close()
+        # (b) really blocks; more commands arrive while blocked; then served by a push / timed out
+        for name in (b"BLPOP", b"BRPOP"):
+            for served in (True, False):
+                for behind in (0, 1, 2):
+                    c = self.srv.client(timeout=4.0)
+                    p = self.srv.client(timeout=4.0)
+                    n0 = self.rep.evaluations
+                    first = [[b"ECHO", b"f%d-%d" % (n0, i)] for i in range(behind)]
+                    second = [[b"ECHO", b"s%d-%d" % (n0, i)] for i in range(2)]
+                    head = [name, b"wq", b"0" if served else b"0.4"]
+                    c.send_raw(enc(head) + b"".join(enc(x) for x in first))
+                    time.sleep(0.15)
+                    c.send_raw(b"".join(enc(x) for x in second))          # sent while the client is blocked
+                    time.sleep(0.1)
+                    if served:
+                        p.cmd("RPUSH", "wq", "elem")
+                    want = [("a", [("b", b"wq"), ("b", b"elem")]) if served else NIL] + [("b", x[1]) for x in first + second]
+                    expect("bpop-%s-behind%d" % ("served" if served else "timeout", behind), c, want,
+                           "%s wq that blocks, %d ECHO behind it in the same write, 2 ECHO sent while blocked, then %s" % (name.decode(), behind, "RPUSH from another connection" if served else "the timeout"),
+                           [[a.decode() for a in x] for x in [head] + first + second])
+                    c.close()
+                    p.cmd("DEL", "wq")
+                    p.close()
+        # (c) client text in line-type replies produced by scripts
+        c = self.srv.client(timeout=4.0)
+        evil = b"done\r\n+injected\r\n:42"
+        for script, kind in ((b"return {ok=ARGV[1]}", "s"), (b"return {err=ARGV[1]}", "e"), (b"return redis.error_reply(ARGV[1])", None), (b"return redis.status_reply(ARGV[1])", None),
+                             (b"error(ARGV[1])", "e"), (b"return redis.call('ECHO', ARGV[1])", "b"), (b"return redis.pcall('NOSUCH' .. ARGV[1])", None)):
+            mk = b"mk%d" % self.rep.evaluations
+            cmds = [[b"EVAL", script, b"0", evil], [b"ECHO", mk]]
+            c.send_raw(b"".join(enc(x) for x in cmds))
+            if not expect("script-line-reply", c, [None, ("b", mk)], "EVAL %s with CR/LF in ARGV[1], then ECHO" % script.decode(), [[a.decode("latin-1") for a in x] for x in cmds]):
+                c.close()
+                c = self.srv.client(timeout=4.0)
+        c.close()
+
     def matrix(self, r, tier):
         """every dispatched command name x {no args, too many args, a key of each type}: exactly one reply each"""
         src = open(os.path.join(REPO, "src", "network", "server.rs"), encoding="utf-8", errors="replace").read()
@@ -421,6 +506,7 @@ def main(tier, seed):
         phase("malformed", lambda: c.malformed(r.fork("bad"), 40 * scale))
         phase("pubsub", lambda: c.pubsub_pipelines(r.fork("pubsub")))
         phase("special", lambda: c.special_replies(r.fork("special")))
+        phase("blocking+scripted", lambda: c.blocking_and_scripted(r.fork("blk")))
         phase("matrix", lambda: c.matrix(r.fork("matrix"), tier))
     finally:
         c.close()
